@@ -628,8 +628,12 @@ func (h *invarHarness) Gen(r *Rand, tier string, clean bool) any {
 			cls = append(cls, QClause{S: Tm{K: "b", B: fmt.Sprintf("?s%d", i)}, P: Tm{K: "b", B: fmt.Sprintf("?p%d", i)}, O: Tm{K: "b", B: fmt.Sprintf("?o%d", i)}})
 			prj = append(prj, Proj{B: fmt.Sprintf("?s%d", i)}, Proj{B: fmt.Sprintf("?p%d", i)}, Proj{B: fmt.Sprintf("?o%d", i)})
 		}
-		c.Q = &Query{From: []string{"?g0"}, Where: cls, Proj: prj}
+		// only the subject columns are selected and all of them are sort keys: single-kind key columns, so the row
+		// SEQUENCE is determined and compared across processor counts
+		c.Q = &Query{From: []string{"?g0"}, Where: cls, Proj: []Proj{prj[0], prj[3], prj[6]}}
 		c.Reps = 2
+		c.Order = []Order{{B: "?s0", Desc: r.Bool()}, {B: "?s1"}, {B: "?s2", Desc: r.Bool()}}
+		return c
 	}
 	if r.Chance(0.4) {
 		c.Order = nil
